@@ -49,3 +49,11 @@ contract("C04", "gibbs_take_step", native=False)(gibbs_take_step)
 
 from contracts.mcmc_pca import pca_take_step
 contract("C04", "pca_take_step", native=False)(pca_take_step)
+
+
+from contracts.mcmc_hmc import hmc_take_step
+contract("C04", "hmc_take_step", native=False)(hmc_take_step)
+
+
+from contracts.mcmc_ensemble import ensemble_advance_walker
+contract("C04", "ensemble_advance_walker", native=False)(ensemble_advance_walker)
